@@ -611,28 +611,10 @@ func (f *c23IPAM) checkRelease(opt ipam.ReleaseOptions, how string) {
 		if nodeExists {
 			e.violate("R1: %s: tunnel address released but its node %s still exists", desc, kn)
 		}
-		// "...and there are no other valid allocations on the node": judged on the blocks seen.
-		for _, cidr := range c23Keys(e.seen) {
-			for _, oid := range c23Keys(e.seen[cidr].allocs) {
-				o := e.seen[cidr].allocs[oid]
-				if o == sa || o.Attrs[ipam.AttributeNode] != cnode || c23IsTunnel(o.Attrs) || strings.EqualFold(o.Handle, ipam.WindowsReservedHandle) {
-					continue
-				}
-				// Only allocations that still exist unchanged in the datastore count.
-				if wb, word := w.findIP(o.IP); wb == nil || !wb.Allocs[word].HasHandle || wb.Allocs[word].Handle != o.Handle || wb.Allocs[word].Seq != o.Seq {
-					continue
-				}
-				switch {
-				case !c23IsPod(o.Attrs):
-					e.violate("R1: %s: tunnel address released while allocation %s from an unknown source remains on the node", desc, o.IP)
-				case c23IsVM(o.Attrs):
-					if w.vmValid(o.Attrs) {
-						e.violate("R1: %s: tunnel address released while VM allocation %s on the node is still valid", desc, o.IP)
-					}
-				case w.truthJustified(o.IP, o.Attrs):
-					e.violate("R1: %s: tunnel address released while pod allocation %s (%v) on the node is still in use", desc, o.IP, o.Attrs)
-				}
-			}
+		// "...and there are no other valid allocations on the node": the GC decides this when it
+		// scans the deleted node; the model records the scans at which it held (see sync()).
+		if !sa.noNode {
+			e.violate("R1: %s: tunnel address released but no scan ever saw its node deleted with no valid / unknown-source allocations left on it", desc)
 		}
 		return
 	}
@@ -869,13 +851,20 @@ func (e *c23Env) sync(full bool) {
 			}
 			nodeExists := knode != "" && w.k8sNodes[knode]
 			byHandleValid := map[string][2]int{}
+			canDelete := true
+			var tunnels []*c23SeenAlloc
 			for _, cidr := range c23Keys(e.seen) {
 				for _, id := range c23Keys(e.seen[cidr].allocs) {
 					sa := e.seen[cidr].allocs[id]
 					if sa.Attrs[ipam.AttributeNode] != cnode || strings.EqualFold(sa.Handle, ipam.WindowsReservedHandle) {
 						continue
 					}
-					if !c23IsPod(sa.Attrs) || c23IsTunnel(sa.Attrs) {
+					if !c23IsPod(sa.Attrs) && !c23IsTunnel(sa.Attrs) {
+						canDelete = false // unknown source
+						continue
+					}
+					if c23IsTunnel(sa.Attrs) {
+						tunnels = append(tunnels, sa)
 						continue
 					}
 					var valid bool
@@ -897,6 +886,9 @@ func (e *c23Env) sync(full bool) {
 						v[1]++
 					}
 					byHandleValid[sa.Handle] = v
+					if valid {
+						canDelete = false
+					}
 					switch {
 					case valid:
 						if sa.leakedAt != nil || sa.noNode {
@@ -917,6 +909,11 @@ func (e *c23Env) sync(full bool) {
 			for _, v := range byHandleValid {
 				if v[0] > 0 && v[1] > 0 {
 					e.classes["handle-mixed-validity"] = true
+				}
+			}
+			if !nodeExists && canDelete {
+				for _, sa := range tunnels {
+					sa.noNode = true
 				}
 			}
 		}
@@ -1235,7 +1232,9 @@ func c23Run(t *rapid.T, rec *ev.Recorder) {
 	w := e.w
 	knownAttrs := ev.Known(c23KnownAttrs) || os.Getenv("VERIF_C23_ASSUME_KNOWN") != ""
 	knownOrder := ev.Known(c23KnownOrder) || os.Getenv("VERIF_C23_ASSUME_KNOWN") != ""
-	nodeNames := []string{"n0", "n1", "n2"}
+	// A deleted node's name is never reused (see limits): five names, each added at most once.
+	nodeNames := []string{"n0", "n1", "n2", "n3", "n4"}
+	usedNodes := map[string]bool{"n0": true, "n1": true}
 	podNames := []string{"p0", "p1", "p2", "p3"}
 	vmNames := []string{"vm0", "vm1"}
 	e.nodeAdd("n0")
@@ -1445,9 +1444,10 @@ func c23Run(t *rapid.T, rec *ev.Recorder) {
 			e.log("cacheSync")
 		case "nodeAdd":
 			n := rapid.SampledFrom(nodeNames).Draw(t, "node")
-			if w.k8sNodes[n] {
+			if usedNodes[n] {
 				continue
 			}
+			usedNodes[n] = true
 			e.nodeAdd(n)
 			e.log("nodeAdd(%s)", n)
 		case "nodeDel":
@@ -1764,7 +1764,7 @@ func TestVerifC23IPAMGC(t *testing.T) {
 		"random histories of node add/delete (KDD and etcd naming), pod create/delete/reschedule/finish with a lagging pod informer, CNI allocations (1-2 IPs per handle, borrowed blocks), tunnel / KubeVirt VM / odd allocations, sequence-number bumps, block add/unaffine/delete, ordered block event delivery, time steps, GC syncs (dirty-only and full) with injected ReleaseIPs failures; non-trivial when a leak candidate is re-validated, a handle has addresses of mixed validity, the final live re-check decides, or something is actually released; distinct by op-kind sequence + classes",
 		"owner rules are those of design/ipam/ipam-gc.md; 'in use' for a pod allocation means: pod exists now on the allocation's node, not finished, and holds the address or has none reported yet",
 		"'first observed as leaked' is modelled from the documented decision tree applied at every sync to the nodes the controller scans (its dirty set / full-scan flag are read as observation points)",
-		"the pod informer may lag behind the API server except that it is caught up when a node is deleted; node informer and Calico node mapping are never stale; pods are always scheduled",
+		"the pod informer may lag behind the API server except that it is caught up when a node is deleted; node informer and Calico node mapping are never stale; pods are always scheduled; a deleted node's name is never reused",
 		"block events are delivered in order without coalescing; no IPs in cooldown (ReleasedAt) are generated",
 	)
 	defer rec.Write()
